@@ -515,7 +515,9 @@ fn fasta_case(s: &FileSpec, rd: Rd, mode: Mode, complete_regions: bool, c: &Coun
             }
             if has_blank {
                 // the statement speaks about files the indexer accepts; blank lines may be refused
-                c.blank_rejected.fetch_add(1, Relaxed);
+                if mode == Mode::Geometry {
+                    c.blank_rejected.fetch_add(1, Relaxed);
+                }
                 return Ok(());
             }
             if mode == Mode::Beyond {
@@ -556,7 +558,7 @@ fn fasta_case(s: &FileSpec, rd: Rd, mode: Mode, complete_regions: bool, c: &Coun
             ));
         }
     };
-    if has_blank {
+    if has_blank && mode == Mode::Geometry {
         c.blank_accepted.fetch_add(1, Relaxed);
     }
 
@@ -778,7 +780,7 @@ fn specs(quick: bool) -> Vec<FileSpec> {
         }
         v
     };
-    let mut push = |recs: Vec<(usize, usize)>, out: &mut Vec<FileSpec>| {
+    let push = |recs: Vec<(usize, usize)>, out: &mut Vec<FileSpec>| {
         for (crlf, tail, desc, sep_blank) in variants(recs.len()) {
             out.push(FileSpec { recs: recs.clone(), crlf, tail, desc, sep_blank, ragged: Ragged::None, ragged_rec: 0, wide: false });
         }
@@ -789,17 +791,27 @@ fn specs(quick: bool) -> Vec<FileSpec> {
     }
     // two records
     if quick {
-        let nb = [(3, 1), (1, 1), (5, 2), (4, 4)];
+        let nb = [(1, 1), (2, 1), (3, 1), (2, 2), (3, 2), (5, 2), (6, 3), (7, 3), (4, 4), (9, 4), (5, 5), (12, 5)];
         for &a in &g {
             for &b in &nb {
                 push(vec![a, b], &mut out);
-                push(vec![b, a], &mut out);
+                if a != b {
+                    push(vec![b, a], &mut out);
+                }
             }
         }
     } else {
         for &a in &g {
             for &b in &g {
                 push(vec![a, b], &mut out);
+            }
+        }
+        // one record, beyond the complete square: lengths 13..=24 x widths 1..=8, widths 6..=8 for the short ones
+        for len in 1..=24 {
+            for w in 1..=8 {
+                if len > 12 || w > 5 {
+                    push(vec![(len, w)], &mut out);
+                }
             }
         }
     }
@@ -1124,7 +1136,7 @@ fn main() {
         let quick = ctx.quick();
         ctx.rule(
             "E3 complete sweeps. fasta_geometry / fasta_beyond: every file spec (1-3 records; target (length 1..=12 x line width 1..=5) completely, \
-             neighbours from a small set in the quick tier and completely (60x60) in the thorough tier; widths {60,200} x lengths {59,60,61,199,200,201,401}; \
+             second record from 12 geometries in both orders (quick) or the complete 60x60 square plus single records up to length 24 x width 8 (thorough); three records over 4^3 (quick) / 12^3 (thorough) geometries; widths {60,200} x lengths {59,60,61,199,200,201,401}; \
              LF/CRLF; 0..3 trailing line terminators; descriptions; blank line between records; 5 ragged kinds) x reader configuration (BufReader capacity 1,2,3,8192 \
              or bgzipped in 7-byte blocks with a harness-built gzi, with/without the EOF-block entry) and inside each case every record x every region \
              start..=end with 1<=start<=end<=len+3 plus start.., ..=end and .. (wide geometries: boundary positions only in the quick tier, all in thorough). \
@@ -1135,22 +1147,27 @@ fn main() {
         ctx.assume("std::io::BufReader / Cursor implement BufRead + Seek as documented");
         let c = Counters::default();
 
-        let sp = specs(quick);
+        let (wide, sp): (Vec<FileSpec>, Vec<FileSpec>) = specs(quick).into_iter().partition(|s| s.wide);
         let rds = readers(quick);
-        let n = (sp.len() * rds.len()) as u64;
-        let decode = |i: u64| -> (&FileSpec, Rd) { (&sp[(i as usize) / rds.len()], rds[(i as usize) % rds.len()]) };
-        let describe = |i: u64| {
-            let (s, rd) = decode(i);
-            format!("{s:?} reader={rd:?} file={}", build_file(s).map(|b| lit(&b)).unwrap_or_default())
-        };
-        ctx.sweep("fasta_geometry", n, describe, |i| {
-            let (s, rd) = decode(i);
-            fasta_case(s, rd, Mode::Geometry, !quick, &c)
-        });
-        ctx.sweep("fasta_beyond", n, describe, |i| {
-            let (s, rd) = decode(i);
-            fasta_case(s, rd, Mode::Beyond, !quick, &c)
-        });
+        for (name_g, name_b, list) in [
+            ("fasta_geometry", "fasta_beyond", &sp),
+            ("fasta_wide_geometry", "fasta_wide_beyond", &wide),
+        ] {
+            let n = (list.len() * rds.len()) as u64;
+            let decode = |i: u64| -> (&FileSpec, Rd) { (&list[(i as usize) / rds.len()], rds[(i as usize) % rds.len()]) };
+            let describe = |i: u64| {
+                let (s, rd) = decode(i);
+                format!("{s:?} reader={rd:?} file={}", build_file(s).map(|b| lit(&b)).unwrap_or_default())
+            };
+            ctx.sweep(name_g, n, describe, |i| {
+                let (s, rd) = decode(i);
+                fasta_case(s, rd, Mode::Geometry, !quick, &c)
+            });
+            ctx.sweep(name_b, n, describe, |i| {
+                let (s, rd) = decode(i);
+                fasta_case(s, rd, Mode::Beyond, !quick, &c)
+            });
+        }
         let distinct_files = c.files.lock().unwrap().len() as u64;
         ctx.add_distinct(distinct_files, c.region_states.load(Relaxed));
 
@@ -1273,7 +1290,7 @@ fn main() {
         ctx.extra(
             "c11_counters",
             json!({
-                "file_specs": sp.len(),
+                "file_specs": sp.len() + wide.len(),
                 "reader_configurations": rds.len(),
                 "distinct_file_reader_pairs": distinct_files,
                 "region_queries_checked": c.queries.load(Relaxed),
